@@ -387,6 +387,69 @@ def extract_lexemes(X):
     X.data["lex_patterns"] = pats
 
 
+def to_ranges(chars):
+    cps = sorted(set(ord(c) for c in chars))
+    out = []
+    for cp in cps:
+        if out and cp == out[-1][1] + 1:
+            out[-1][1] = cp
+        else:
+            out.append([cp, cp])
+    return out
+
+
+def walk_graph(root):
+    seen = {}
+    stack = [root]
+    while stack:
+        e = stack.pop()
+        if e is None or id(e) in seen:
+            continue
+        seen[id(e)] = e
+        x = getattr(e, "expr", None)
+        if x is not None and hasattr(x, "parser_config"):
+            stack.append(x)
+        for y in getattr(e, "exprs", None) or []:
+            stack.append(y)
+    return list(seen.values())
+
+
+def extract_graph(X, builds):
+    """census of the grammar graph of the common parser: keyword words, parse actions"""
+    import mo_sql_parsing.utils as U
+    import mo_sql_parsing.keywords as K
+
+    X.data["ident_ranges"] = to_ranges(U.IDENT_CHAR)
+    X.data["first_ident_ranges"] = to_ranges(U.FIRST_IDENT_CHAR)
+    words = set()
+    actions = {}
+    sizes = {}
+    for (name, ac), parser in builds.items():
+        nodes = walk_graph(parser.element)
+        sizes["%s/%s" % (name, ac)] = len(nodes)
+        for e in nodes:
+            cls = type(e).__name__
+            if cls in ("Keyword", "CaselessKeyword", "CaselessLiteral"):
+                mt = getattr(e.parser_config, "match", None)
+                if isinstance(mt, str) and mt and mt[0].isalpha():
+                    words.add(mt.lower())
+            for pa in getattr(e, "parse_action", None) or []:
+                fn = getattr(pa, "__wrapped__", pa)
+                nm = getattr(fn, "__name__", None) or getattr(getattr(pa, "action", None), "__name__", None) or type(pa).__name__
+                actions[nm] = actions.get(nm, 0) + 1
+    X.data["keyword_words"] = sorted(words)
+    X.data["graph_sizes"] = sizes
+    X.data["parse_actions"] = actions
+    reserved = []
+    for w in sorted(words):
+        try:
+            K.RESERVED.parse_string(w)
+            reserved.append(w)
+        except Exception:
+            pass
+    X.data["reserved_words"] = reserved
+
+
 def gen_lexemes_lean(X):
     lines = [
         "/- GENERATED by tools/extract.py from /repo's working tree — do not edit. -/",
@@ -398,7 +461,14 @@ def gen_lexemes_lean(X):
     pats = X.data.get("lex_patterns", [])
     for i, (n, p) in enumerate(pats):
         lines.append("  (%s, %s)%s" % (lean_str(n), lean_str(p), "," if i + 1 < len(pats) else ""))
-    lines += ["]", "", "end MoSql.Gen"]
+    lines += ["]", ""]
+    for nm, key in (("identRanges", "ident_ranges"), ("firstIdentRanges", "first_ident_ranges")):
+        lines.append("/-- code-point ranges of utils.%s -/" % ("IDENT_CHAR" if nm == "identRanges" else "FIRST_IDENT_CHAR"))
+        lines.append("def %s : List (Nat × Nat) := [%s]" % (nm, ", ".join("(%d, %d)" % (a, b) for a, b in X.data.get(key, []))))
+        lines.append("")
+    lines.append("/-- the single words that `keywords.RESERVED` matches (`formatting.is_keyword`) -/")
+    lines.append("def reservedWords : List String := [%s]" % ", ".join(lean_str(w) for w in X.data.get("reserved_words", [])))
+    lines += ["", "end MoSql.Gen"]
     return "\n".join(lines) + "\n"
 
 
@@ -425,6 +495,7 @@ def main():
     extract_levels(X, rec)
     extract_formatter(X)
     extract_lexemes(X)
+    extract_graph(X, builds)
 
     changed = []
     gen_dir = os.path.join(VERIF, "lean", "MoSql", "Gen")
